@@ -42,12 +42,27 @@ HARNESSES = [
                "features, in-core bitmaps present or not, MMP descriptor: all symbolic"),
     dict(name="open_ro", src="open_ro.c",
          extra_src=["lib/ext2fs/blknum.c", "lib/ext2fs/io_manager.c"],
-         funcs=["ext2fs_open2", "ext2fs_descriptor_block_loc2"],
+         funcs=["ext2fs_open2"],
+         configs=[{"PREFIX": None}, {"_tier": "thorough"}],
          unwind=5, unwindset=MAINL + ["strlen.0:3", "strcpy.0:3", "strchr.0:3"],
          backends=["default", "kissat"],
          bound="1 KiB blocks, 64 blocks per group, <= 3 groups, descriptor size 32/64; every other superblock byte, the "
                "descriptor block, open flags (minus RW/dirty bits/IMAGE_FILE), superblock/block_size arguments, checksum "
                "verdicts, manager open() and mmp_start results: all symbolic"),
+    dict(name="unix_open_mode", src="unix_open_mode.c",
+         funcs=["unix_open", "unix_open_channel", "ext2fs_open_file", "alloc_cache"],
+         unwind=4, unwindset=MAINL + ["alloc_cache.0:9", "free_cache.0:9", "strlen.0:3", "strcpy.0:3"],
+         backends=["default", "kissat"],
+         bound="io flag word: all 2^32 values except IO_FLAG_THREADS; regular file / block device, BLKROGET answer, "
+               "kernel release, open() failure: symbolic"),
+    dict(name="journal_release", src="journal_release.c",
+         extra_src=["lib/ext2fs/io_manager.c"],
+         funcs=["e2fsck_journal_release", "brelse", "ll_rw_block"],
+         configs=[{}, {"RW": None}],
+         unwind=4, unwindset=MAINL,
+         backends=["default", "kissat"],
+         bound="ctx->options (READONLY forced on; config RW: forced off), reset, drop, prior dirty state of the buffer, first 64 "
+               "bytes of the journal superblock, tail sequence, separate/shared journal channel: all symbolic"),
 ]
 MANIFEST = {
     "text": "TBD",
